@@ -10,6 +10,13 @@
 //!   rsplit                            -> `ok <int> <num> <den>`
 //! primitives:     `round_fract <base> <mode> <int> <fract> <digits>`  -> `ok <NoOp|AddOne|SubOne>`
 //!                 `round_ratio <mode> <int> <num> <den>`              -> `ok <NoOp|AddOne|SubOne>`
+//!                 `round_fract_any` / `round_ratio_any`: the same calls on arbitrary input (assertions may fire)
+//! round 3 (a significand token `inf` / `-inf` gives the infinities in every float case):
+//!   wp2 <base> <mode> <precision> <sig> <exp> <np1> <np2>   with_precision(np1).value().with_precision(np2)
+//!                                     -> `ok <sig> <exp> <flag> <precision> <sig> <exp> <flag> <precision>`
+//!   wr_wp <base> <mode> <new mode> <precision> <sig> <exp> <np>   with_rounding::<new>().with_precision(np)
+//!   wbp_same <base> <mode> <precision> <sig> <exp> <np>           with_base_and_precision::<base>(np)
+//!                                     -> `ok <sig> <exp> <flag> <precision>`
 use dashu_float::round::Round;
 use hlib::*;
 
@@ -20,8 +27,36 @@ fn hint(x: &Approximation<IBig, Rounding>) -> String {
     }
 }
 
+/// `repr_of` of the library plus the exponent tokens `min` / `max` (isize::MIN / isize::MAX, which `isz` cannot read)
+fn repr10<const B: Word>(sig: &str, exp: &str) -> Repr<B> {
+    match exp {
+        "min" => Repr::new(ibig(sig), isize::MIN),
+        "max" => Repr::new(ibig(sig), isize::MAX),
+        _ => repr_of::<B>(sig, exp),
+    }
+}
+
+fn wr_wp<R: Round, R2: Round, const B: Word>(p: usize, sig: &str, exp: &str, np: usize) -> String {
+    let f = FBig::<R, B>::from_repr(repr_of::<B>(sig, exp), Context::<R>::new(p));
+    format!("ok {}", hrounded(&f.with_rounding::<R2>().with_precision(np)))
+}
+
 fn run(op: &str, a: &[&str]) -> String {
     match op {
+        "wr_wp" => {
+            return with_float!(a[0], a[1], |R, B| {
+                let (p, np) = (usz(a[3]), usz(a[6]));
+                match a[2] {
+                    "Zero" => wr_wp::<R, mode::Zero, B>(p, a[4], a[5], np),
+                    "Away" => wr_wp::<R, mode::Away, B>(p, a[4], a[5], np),
+                    "Up" => wr_wp::<R, mode::Up, B>(p, a[4], a[5], np),
+                    "Down" => wr_wp::<R, mode::Down, B>(p, a[4], a[5], np),
+                    "HalfEven" => wr_wp::<R, mode::HalfEven, B>(p, a[4], a[5], np),
+                    "HalfAway" => wr_wp::<R, mode::HalfAway, B>(p, a[4], a[5], np),
+                    other => panic!("unknown mode {}", other),
+                }
+            });
+        }
         "rtrunc" => return format!("ok {}", hi(&rbig(a[0], a[1]).trunc())),
         "rfloor" => return format!("ok {}", hi(&rbig(a[0], a[1]).floor())),
         "rceil" => return format!("ok {}", hi(&rbig(a[0], a[1]).ceil())),
@@ -40,14 +75,14 @@ fn run(op: &str, a: &[&str]) -> String {
             let (t, f) = relaxed(a[0], a[1]).split_at_point();
             return format!("ok {} {}", hi(&t), hqr(&f));
         }
-        "round_ratio" => {
+        "round_ratio" | "round_ratio_any" => {
             return with_float!("a", a[0], |R, B| {
                 let _ = B;
                 let r = <R as Round>::round_ratio(&ibig(a[1]), ibig(a[2]), &ibig(a[3]));
                 format!("ok {}", rounding_str(r))
             });
         }
-        "round_fract" => {
+        "round_fract" | "round_fract_any" => {
             return with_float!(a[0], a[1], |R, B| {
                 let r = <R as Round>::round_fract::<B>(&ibig(a[2]), ibig(a[3]), usz(a[4]));
                 format!("ok {}", rounding_str(r))
@@ -58,7 +93,7 @@ fn run(op: &str, a: &[&str]) -> String {
     with_float!(a[0], a[1], |R, B| {
         let p = usz(a[2]);
         let ctx = Context::<R>::new(p);
-        let x = repr_of::<B>(a[3], a[4]);
+        let x = repr10::<B>(a[3], a[4]);
         let f = FBig::<R, B>::from_repr(x.clone(), ctx);
         let val = |v: &FBig<R, B>| format!("{} {:x}", hrepr(v.repr()), v.precision());
         match op {
@@ -74,6 +109,12 @@ fn run(op: &str, a: &[&str]) -> String {
             "to_int" => hint(&f.to_int()),
             "repr_to_int" => hint(&x.to_int()),
             "with_precision" => format!("ok {}", hrounded(&f.with_precision(usz(a[5])))),
+            "wp2" => {
+                let first = f.with_precision(usz(a[5]));
+                let second = first.clone().value().with_precision(usz(a[6]));
+                format!("ok {} {}", hrounded(&first), hrounded(&second))
+            }
+            "wbp_same" => format!("ok {}", hrounded(&f.with_base_and_precision::<B>(usz(a[5])))),
             _ => format!("unknown-op {}", op),
         }
     })
